@@ -84,13 +84,17 @@ theorem error_hook_needs_error_result (env : Env) (m : ManipOpt) (src dst : Para
   · exact ⟨_, rfl⟩
   · simp [h]
 
-/-- a hook is accepted only if its first two parameters fit the method's operands -/
+/-- a hook is accepted only if the method's operands fit its parameters — in the direction of the
+generated call (operand assignable to parameter; repaired direction, DESIGN §5 #33) — and, when it
+declares additional parameters, only if there is one per additional argument and each argument fits -/
 theorem accepted_fits (env : Env) (m : ManipOpt) (src dst : ParamVar) (args : List ParamVar) (retErr : Bool)
     (r : Manipulator) (h : buildManipulator env (some m) src dst args retErr = .ok (some r)) :
-    env.assignable (env.derefPtr m.dstSide) (env.derefPtr dst.ty) = true ∧
-    env.assignable (env.derefPtr m.srcSide) (env.derefPtr src.ty) = true ∧
+    env.assignable (env.derefPtr dst.ty) (env.derefPtr m.dstSide) = true ∧
+    env.assignable (env.derefPtr src.ty) (env.derefPtr m.srcSide) = true ∧
     r.isDstPtr = env.isPtr m.dstSide ∧ r.isSrcPtr = env.isPtr m.srcSide ∧ r.retError = m.retError ∧
-    (m.retError = true → retErr = true) := by
+    (m.retError = true → retErr = true) ∧
+    (r.hasAdditionalArgs = true → m.additionalArgs.length = args.length ∧
+      ∀ p ∈ m.additionalArgs.zip args, env.assignable p.2.ty p.1 = true) := by
   unfold buildManipulator at h
   simp only at h
   split at h
@@ -104,19 +108,31 @@ theorem accepted_fits (env : Env) (m : ManipOpt) (src dst : ParamVar) (args : Li
         split at h
         · cases h
         · rename_i hs
-          have hd' : env.assignable (env.derefPtr m.dstSide) (env.derefPtr dst.ty) = true := by simpa using hd
-          have hs' : env.assignable (env.derefPtr m.srcSide) (env.derefPtr src.ty) = true := by simpa using hs
+          have hd' : env.assignable (env.derefPtr dst.ty) (env.derefPtr m.dstSide) = true := by simpa using hd
+          have hs' : env.assignable (env.derefPtr src.ty) (env.derefPtr m.srcSide) = true := by simpa using hs
           have he' : m.retError = true → retErr = true := by
             intro hm
             cases hr : retErr
             · simp [hm, hr] at he
             · rfl
           split at h
-          · cases h; exact ⟨hd', hs', rfl, rfl, rfl, he'⟩
+          · cases h; exact ⟨hd', hs', rfl, rfl, rfl, he', fun hx => by cases hx⟩
           · split at h
             · cases h
-            · split at h
+            · rename_i hlen
+              split at h
               · cases h
-              · cases h; exact ⟨hd', hs', rfl, rfl, rfl, he'⟩
+              · rename_i hfind
+                cases h
+                refine ⟨hd', hs', rfl, rfl, rfl, he', fun _ => ⟨by simpa using hlen, ?_⟩⟩
+                intro p hp
+                have hnone := List.find?_eq_none.mp hfind
+                obtain ⟨i, hi⟩ : ∃ i, (p, i) ∈ (m.additionalArgs.zip args).zipIdx := by
+                  obtain ⟨i, hlt, hget⟩ := List.getElem_of_mem hp
+                  exact ⟨i, by
+                    rw [List.mem_zipIdx_iff_getElem?]
+                    rw [List.getElem?_eq_getElem hlt, hget]⟩
+                have := hnone (p, i) hi
+                simpa using this
 
 end Convergen.Props.C10
